@@ -41,7 +41,7 @@ def gen_cases(rng, tier):
             c = ocpgen.gen_constraint(rng, spec, cid + 1, grids=["control", "integrator"] + (
                 ["integrator_roots"] if spec["method"]["cls"] == "DC" else []), allow_offsets=False)
             if rng.random() < 0.7:
-                c["scale"] = ocpgen.rnd(rng, 0.2, 8.0, 3)
+                c["scale"] = ocpgen.rand_constraint_scale(rng, c)
             spec["constraints"].append(c)
         # a constraint with a parametric bound and a scale (bounds must be scaled with the body)
         glob = [p for p in spec["params"] if not p.get("grid") and p.get("role") != "horizon"]
@@ -230,7 +230,20 @@ def run_case(case):
         for c in spec["constraints"]:
             sc = c.get("scale") or 1.0
             A = [(a[0], a[1]) for a in atA if a[2] == c["cid"]]
-            B = [(a[0], a[1] / sc) for a in atB if a[2] == c["cid"]]
+            if isinstance(sc, list):
+                # one scale per element: element e of instance i sits at row (first row of the constraint) + i*n + e
+                # in the unscaled twin (same row layout); divide row-wise
+                rowsB = sorted(a[4] for a in atB if a[2] == c["cid"])
+                first = min(int(r_) for r_ in np.nonzero(obsB.view.row_cid == c["cid"])[0]) if rowsB else 0
+                con_of = obsB.view.row_con
+                B = []
+                for a in atB:
+                    if a[2] != c["cid"]:
+                        continue
+                    start = min(int(r_) for r_ in np.nonzero(con_of == con_of[a[4]])[0])
+                    B.append((a[0], a[1] / sc[(a[4] - start) % len(sc)]))
+            else:
+                B = [(a[0], a[1] / sc) for a in atB if a[2] == c["cid"]]
             s_ = 1.0 + max([abs(v) for _, v in A] + [abs(v) for _, v in B] + [0.0])
             un_a, un_b = nlp.match_multiset(A, B, scale=s_, rtol=rt)
             res["evals"] += 1
@@ -238,7 +251,7 @@ def run_case(case):
             if un_a or un_b:
                 res["violations"].append({
                     "kind": "constraint-scale", "mech": "C14|constraint-not-divided-by-its-scale",
-                    "detail": "constraint id %d (%s, scale %g): scaled NLP slacks %s, unscaled/scale %s" % (
+                    "detail": "constraint id %d (%s, scale %s): scaled NLP slacks %s, unscaled/scale %s" % (
                         c["cid"], c["form"], sc, C.short([A[i][1] for i in un_a][:4]), C.short([B[i][1] for i in un_b][:4]))})
                 bad = True
                 break
